@@ -328,7 +328,13 @@ class BitfieldEngine(object):
         self.cur_scope = self.scope_kind(v.fv)
         if self.cur_scope == "mixed":
             w.probe("known_finding_scope_mixed")
-        st, val = self.call(v.obj.add_field, ident, dlen, dstart, tags)
+        given_tags = tags
+        if isinstance(tags, list) and t.draw(2):
+            # the tags as a tuple, or as a one-shot iterator
+            given_tags = [tuple(tags), iter(tags),
+                          (x for x in tags)][t.draw(3)]
+            w.probe("tags_other_iterable")
+        st, val = self.call(v.obj.add_field, ident, dlen, dstart, given_tags)
         self.cur_scope = None
         w.ops[-1] += " -> " + st
         if st == "other":
